@@ -3,6 +3,8 @@
 package node
 
 import (
+	"github.com/youzan/ZanRedisDB/transport/rafthttp"
+	"github.com/youzan/ZanRedisDB/engine"
 	"github.com/absolute8511/redcon"
 	"github.com/youzan/ZanRedisDB/common"
 	zanredisdb "github.com/youzan/go-zanredisdb"
@@ -89,3 +91,60 @@ func Verif_C15_S3_OwnerOnly() {
 	_ = cmd
 	vsym.Reach("end")
 }
+
+// Models for the heavy collaborators of InitNamespaceNode (opening the data engine, the raft WAL engine):
+// the harness below decides only the namespace-meta bookkeeping that routing reads.
+func VerifModel_node_NewKVNode(kvopts *KVOptions, config *RaftConfig, transport *rafthttp.Transport, join bool,
+	stopCb func(), clusterInfo common.IClusterInfo, newLeaderChan chan string) (*KVNode, error) {
+	return &KVNode{ns: config.GroupName, rn: &raftNode{config: config}}, nil
+}
+
+func VerifModel_node_NamespaceMgr_getWALEng(nsm *NamespaceMgr, ns string, dataDir string, id uint64, gid uint32, meta *NamespaceMeta) engine.KVEngine {
+	return nil
+}
+
+// S4: after a namespace is (re)created through InitNamespaceNode, routing uses that namespace's current
+// partition count - also when an older incarnation with a different partition count was known before.
+func Verif_C15_S4_InitNamespaceMeta() {
+	vsym.SymbolicOnly()
+	mgr := &NamespaceMgr{kvNodes: map[string]*NamespaceNode{}, nsMetas: map[string]*NamespaceMeta{}, groups: map[uint64]string{},
+		machineConf: &MachineConfig{}}
+	oldNum := vsym.Choose("old", 4) // 0: never seen
+	if oldNum > 0 {
+		mgr.nsMetas["ns"] = &NamespaceMeta{PartitionNum: oldNum}
+	}
+	pnum := 1 + vsym.Choose("pnum", 3)
+	nodes := map[int]*NamespaceNode{}
+	for p := 0; p < pnum; p++ {
+		conf := NewNSConfig()
+		conf.BaseName = "ns"
+		conf.Name = common.GetNsDesp("ns", p)
+		conf.PartitionNum = pnum
+		conf.Replicator = 1
+		conf.EngType = "pebble"
+		conf.RaftGroupConf.GroupID = uint64(p + 1)
+		conf.RaftGroupConf.SeedNodes = []ReplicaInfo{{NodeID: 1, ReplicaID: 1}}
+		nn, err := mgr.InitNamespaceNode(conf, 1, false)
+		vsym.Assert(err == nil && nn != nil, "a valid partition config is accepted")
+		nn.ready = 1
+		nodes[p] = nn
+	}
+	key := vsym.Bytes("key", 1+vsym.Choose("keylen", 2))
+	want := GetHashedPartitionID(key, pnum)
+	got, err := mgr.GetNamespaceNodeWithPrimaryKey("ns", key)
+	for p := 0; p < pnum; p++ {
+		if want == p {
+			vsym.Assert(err == nil && got == nodes[p], "routing after (re)creation uses the namespace's current partition count")
+			vsym.Reach("checked")
+		}
+	}
+	m := mgr.nsMetas["ns"]
+	vsym.Assert(m != nil && m.PartitionNum == pnum, "the recorded partition count is the created one")
+	vsym.Reach("end")
+}
+
+// FillDefaultOptions sizes caches from the machine's memory (gopsutil reads /proc): irrelevant to routing.
+func VerifModel_engine_FillDefaultOptions(opts *engine.RockOptions) {}
+
+// json.MarshalIndent is used by InitNamespaceNode only to log the configuration.
+func VerifModel_json_MarshalIndent(v interface{}, prefix, indent string) ([]byte, error) { return nil, nil }
